@@ -406,3 +406,490 @@ Lemma callthread_agrees : forall (ops : numops) (orc : oracles) rho pool lim g c
   vm_run ops orc rho pool (Some lim) g code = (t, o) -> o <> OFault XLimit ->
   vm_run ops orc rho pool None g code = (t, o).
 Proof. intros ops orc rho pool lim g code t o H Hn. exact (vm_run_rel ops orc rho pool lim g code t o H Hn). Qed.
+
+(* ------------------------------------------------------------------ *)
+(* the compiler: named pieces and unfolding equations *)
+Section Comp.
+  Variable ops : numops.
+  Variable orc : oracles.
+  Variable fe : fenv.
+  Notation compile := (compile ops orc fe).
+
+  Fixpoint comp_list (l : list aexpr) (st : cstate) : cres cstate :=
+    match l with [] => COk st | x :: r => let+ st1 := compile x st in comp_list r st1 end.
+  Fixpoint comp_kvs (l : list (aexpr * aexpr)) (st : cstate) : cres cstate :=
+    match l with
+    | [] => COk st
+    | (k, v) :: r => let+ s1 := compile k st in let+ s2 := compile v s1 in comp_kvs r s2
+    end.
+  Fixpoint comp_fields (l : list (string * aexpr)) (st : cstate) : cres cstate :=
+    match l with [] => COk st | (_, v) :: r => let+ s1 := compile v st in comp_fields r s1 end.
+  Definition comp_args (sg : fsig) : list aexpr -> nat -> cstate -> cres cstate :=
+    fix go (l : list aexpr) (i : nat) (st : cstate) : cres cstate :=
+    match l with
+    | [] => COk st
+    | x :: r =>
+        if s_lazy sg then
+          let+ sub := compile x (cs_empty (cs_rpool st) (cs_plen st)) in
+          let+ st'' := emit_const (CThunk (rev (cs_rcode (emit_op OP_RETURN sub))) (thunk_ret sg i))
+                         (emit_op OP_CONST (mkCS (cs_rcode st) (cs_clen st) (cs_rpool sub) (cs_plen sub))) in
+          go r (S i) st''
+        else let+ st' := compile x st in go r (S i) st'
+    end.
+  Definition comp_branch (br : aexpr + bool) (st : cstate) : cres cstate :=
+    match br with
+    | inl e => compile e st
+    | inr b => emit_const (CVal (VBool b)) (emit_op OP_CONST st)
+    end.
+  Definition comp_cond (c : aexpr) (t e : aexpr + bool) (st : cstate) : cres cstate :=
+    let+ st1 := compile c st in
+    let st2 := emit_op OP_IF_TRUE st1 in
+    let off_false := cs_clen st2 in
+    let+ st3 := emit16 0 st2 in
+    let+ st4 := comp_branch t st3 in
+    let st5 := emit_op OP_JUMP st4 in
+    let off_next := cs_clen st5 in
+    let+ st6 := emit16 0 st5 in
+    let branch_false := cs_clen st6 in
+    let+ st7 := comp_branch e st6 in
+    let next := cs_clen st7 in
+    let+ st8 := patch16 off_false branch_false st7 in
+    patch16 off_next next st8.
+
+  Lemma compile_list_eq : forall t es st,
+    compile (AList t es) st =
+    (let+ st1 := comp_list es st in
+     let+ st2 := emit_const (CType t) (emit_op OP_NEW_LIST st1) in
+     emit16 (N.of_nat (len es)) st2).
+  Proof. reflexivity. Qed.
+
+  Lemma compile_map_eq : forall t kvs st,
+    compile (AMap t kvs) st =
+    (let+ st1 := comp_kvs kvs st in
+     let+ st2 := emit_const (CType t) (emit_op OP_NEW_MAP st1) in
+     emit16 (N.of_nat (len kvs)) st2).
+  Proof. reflexivity. Qed.
+
+  Lemma compile_obj_eq : forall t fs st,
+    compile (AObj t fs) st =
+    (let+ st1 := comp_fields fs st in emit_const (CType t) (emit_op OP_NEW_OBJ st1)).
+  Proof. reflexivity. Qed.
+
+  Lemma compile_call_eq : forall col key idx fty callee args st,
+    compile (ACall col key idx fty callee args) st =
+    if String.eqb key "" then
+      (let+ st1 := compile callee st in
+       let+ st2 := comp_list args st1 in
+       emit8 (N.of_nat (len args)) (emit_op OP_DYNAMIC_CALL st2))
+    else
+      match lookup_fn fe key idx with
+      | None => CErr
+      | Some sg =>
+          match intrinsic_cbn sg, args with
+          | Some BIf, [c; t; e] => comp_cond c (inl t) (inl e) st
+          | Some BAnd, [x; y] => comp_cond x (inl y) (inr false) st
+          | Some BOr, [x; y] => comp_cond x (inr true) (inl y) st
+          | Some BNot, [x] => let+ st1 := compile x st in COk (emit_op OP_LOGICAL_NOT st1)
+          | Some _, _ => CErr
+          | None, _ =>
+              let+ st1 := comp_args sg args O st in
+              match intrinsic_cbv sg with
+              | Some o => COk (emit_op o st1)
+              | None =>
+                  let o := if s_lazy sg then OP_CALL_BY_NEED else OP_CALL_BY_VALUE in
+                  let+ st2 := emit_const (CFun sg) (emit_op o st1) in
+                  emit8 (N.of_nat (len args)) st2
+              end
+          end
+      end.
+  Proof. reflexivity. Qed.
+
+  Lemma compile_sub_eq : forall col vty v i st,
+    compile (ASub col vty v i) st =
+    (let+ st1 := compile v st in
+     let+ st2 := compile i st1 in
+     if ty_is_list vty then COk (emit_op OP_LIST_LOAD st2)
+     else if ty_is_map vty then COk (emit_op OP_MAP_LOAD st2)
+     else CErr).
+  Proof. reflexivity. Qed.
+
+  Lemma compile_member_eq : forall col oty idx o name st,
+    compile (AMember col oty idx o name) st =
+    (let+ st1 := compile o st in
+     let+ st2 := emit16 (N.of_nat idx) (emit_op OP_OBJ_LOAD st1) in
+     emit_const (CName name) st2).
+  Proof. reflexivity. Qed.
+End Comp.
+
+(* ------------------------------------------------------------------ *)
+(* induction principle for the nested inductive [aexpr] *)
+Section AexprInd.
+  Variable P : aexpr -> Prop.
+  Hypothesis Hstr : forall v, P (AStr v).
+  Hypothesis Hnum : forall t n, P (ANum t n).
+  Hypothesis Htime : forall t, P (ATime t).
+  Hypothesis Hbool : forall b, P (ABool b).
+  Hypothesis Hlist : forall t es, Forall P es -> P (AList t es).
+  Hypothesis Hmap : forall t kvs, Forall (fun kv => P (fst kv) /\ P (snd kv)) kvs -> P (AMap t kvs).
+  Hypothesis Hobj : forall t fs, Forall (fun f => P (snd f)) fs -> P (AObj t fs).
+  Hypothesis Hident : forall c n, P (AIdent c n).
+  Hypothesis Hcall : forall c k i ft f args, P f -> Forall P args -> P (ACall c k i ft f args).
+  Hypothesis Hsub : forall c vt v i, P v -> P i -> P (ASub c vt v i).
+  Hypothesis Hmember : forall c ot idx o n, P o -> P (AMember c ot idx o n).
+
+  Fixpoint aexpr_ind' (a : aexpr) : P a :=
+    match a with
+    | AStr v => Hstr v | ANum t n => Hnum t n | ATime t => Htime t | ABool b => Hbool b
+    | AList t es => Hlist t es ((fix go (l : list aexpr) : Forall P l :=
+                                  match l with [] => Forall_nil _ | a :: r => Forall_cons _ (aexpr_ind' a) (go r) end) es)
+    | AMap t kvs => Hmap t kvs ((fix go (l : list (aexpr * aexpr)) : Forall (fun kv => P (fst kv) /\ P (snd kv)) l :=
+                                  match l with
+                                  | [] => Forall_nil _
+                                  | a :: r => Forall_cons _ (conj (aexpr_ind' (fst a)) (aexpr_ind' (snd a))) (go r)
+                                  end) kvs)
+    | AObj t fs => Hobj t fs ((fix go (l : list (string * aexpr)) : Forall (fun f => P (snd f)) l :=
+                                match l with [] => Forall_nil _ | a :: r => Forall_cons _ (aexpr_ind' (snd a)) (go r) end) fs)
+    | AIdent c n => Hident c n
+    | ACall c k i ft f args => Hcall c k i ft f args (aexpr_ind' f)
+                            ((fix go (l : list aexpr) : Forall P l :=
+                                match l with [] => Forall_nil _ | a :: r => Forall_cons _ (aexpr_ind' a) (go r) end) args)
+    | ASub c vt v i => Hsub c vt v i (aexpr_ind' v) (aexpr_ind' i)
+    | AMember c ot idx o n => Hmember c ot idx o n (aexpr_ind' o)
+    end.
+End AexprInd.
+
+(* ------------------------------------------------------------------ *)
+(* compiler states: what a compilation step appends *)
+Definition code_of (st : cstate) : list N := rev (cs_rcode st).
+Definition pool_of (st : cstate) : list const := rev (cs_rpool st).
+Definition wf (st : cstate) : Prop :=
+  cs_clen st = N.of_nat (List.length (cs_rcode st)) /\ cs_plen st = N.of_nat (List.length (cs_rpool st)).
+
+Definition ext (st st' : cstate) (frag : list N) (pf : list const) : Prop :=
+  cs_rcode st' = rev frag ++ cs_rcode st /\ cs_clen st' = (cs_clen st + N.of_nat (List.length frag))%N /\
+  cs_rpool st' = rev pf ++ cs_rpool st /\ cs_plen st' = (cs_plen st + N.of_nat (List.length pf))%N.
+
+Lemma ext_refl : forall st, ext st st [] [].
+Proof. intros st. unfold ext. cbn. rewrite !N.add_0_r. auto. Qed.
+
+Lemma ext_trans : forall a b c f1 p1 f2 p2, ext a b f1 p1 -> ext b c f2 p2 -> ext a c (f1 ++ f2) (p1 ++ p2).
+Proof.
+  intros a b c f1 p1 f2 p2 [A1 [A2 [A3 A4]]] [B1 [B2 [B3 B4]]]. unfold ext.
+  rewrite B1, B2, B3, B4, A1, A2, A3, A4, !rev_app_distr, !app_length, !app_assoc. repeat split; lia.
+Qed.
+
+Lemma ext_wf : forall a b f p, wf a -> ext a b f p -> wf b.
+Proof.
+  intros a b f p [W1 W2] [A1 [A2 [A3 A4]]]. unfold wf.
+  rewrite A1, A2, A3, A4, W1, W2, !app_length, !rev_length. split; lia.
+Qed.
+
+Lemma ext_inj : forall a b f p f' p', ext a b f p -> ext a b f' p' -> f = f' /\ p = p'.
+Proof.
+  intros a b f p f' p' [A1 [_ [A3 _]]] [B1 [_ [B3 _]]].
+  rewrite A1 in B1. apply app_inv_tail in B1. rewrite A3 in B3. apply app_inv_tail in B3.
+  split; [rewrite <- (rev_involutive f), B1|rewrite <- (rev_involutive p), B3]; apply rev_involutive.
+Qed.
+
+Lemma ext_code : forall a b f p, ext a b f p -> code_of b = code_of a ++ f.
+Proof. intros a b f p [A1 _]. unfold code_of. rewrite A1, rev_app_distr, rev_involutive. reflexivity. Qed.
+
+Lemma ext_pool : forall a b f p, ext a b f p -> pool_of b = pool_of a ++ p.
+Proof. intros a b f p [_ [_ [A3 _]]]. unfold pool_of. rewrite A3, rev_app_distr, rev_involutive. reflexivity. Qed.
+
+Lemma ext_emit_byte : forall b st, ext st (emit_byte b st) [b] [].
+Proof. intros. unfold ext, emit_byte. cbn. rewrite N.add_0_r. auto. Qed.
+
+Lemma ext_emit_op : forall o st, ext st (emit_op o st) [op_byte o] [].
+Proof. intros. apply ext_emit_byte. Qed.
+
+Definition b16 (n : N) : list N := [(n / 256)%N; (n mod 256)%N].
+
+Lemma emit16_ext : forall n st st', emit16 n st = COk st' -> ext st st' (b16 n) [] /\ (n <= 65535)%N.
+Proof.
+  intros n st st' H. unfold emit16 in H. destruct (N.leb n 65535) eqn:E; [|discriminate].
+  inversion H; subst. split; [|apply N.leb_le; exact E].
+  apply (ext_trans _ _ _ [_] [] [_] [] (ext_emit_byte _ _) (ext_emit_byte _ _)).
+Qed.
+
+Lemma emit8_ext : forall n st st', emit8 n st = COk st' -> ext st st' [n] [] /\ (n <= 255)%N.
+Proof.
+  intros n st st' H. unfold emit8 in H. destruct (N.leb n 255) eqn:E; [|discriminate].
+  inversion H; subst. split; [apply ext_emit_byte|apply N.leb_le; exact E].
+Qed.
+
+Lemma emit_const_ext : forall c st st', emit_const c st = COk st' ->
+  ext st st' (b16 (cs_plen st)) [c] /\ (cs_plen st <= 65535)%N.
+Proof.
+  intros c st st' H. unfold emit_const in H. apply emit16_ext in H. destruct H as [[A1 [A2 [A3 A4]]] Hle].
+  cbn in *. split; [|exact Hle]. unfold ext. cbn. repeat split; try assumption. rewrite A4. lia.
+Qed.
+
+Lemma set_nth_app : forall l1 x l2 y, set_nth (l1 ++ x :: l2) (List.length l1) y = l1 ++ y :: l2.
+Proof. induction l1 as [|a l1 IH]; intros; cbn; [reflexivity|rewrite IH; reflexivity]. Qed.
+
+Lemma patch16_ext : forall st st7 st8 f1 a b f2 pf off v,
+  wf st -> ext st st7 (f1 ++ a :: b :: f2) pf -> off = (cs_clen st + N.of_nat (List.length f1))%N ->
+  patch16 off v st7 = COk st8 ->
+  ext st st8 (f1 ++ b16 v ++ f2) pf /\ (v <= 65535)%N.
+Proof.
+  intros st st7 st8 f1 a b f2 pf off v [W1 W2] Hext Hoff H.
+  unfold patch16 in H. destruct (N.leb v 65535) eqn:E; [|discriminate]. inversion H; subst st8; clear H.
+  split; [|apply N.leb_le; exact E].
+  pose proof (ext_code _ _ _ _ Hext) as Hc. unfold code_of in Hc. rewrite Hc.
+  destruct Hext as [A1 [A2 [A3 A4]]].
+  assert (Hn : N.to_nat off = List.length (rev (cs_rcode st) ++ f1)).
+  { rewrite app_length, rev_length. lia. }
+  rewrite Hn. rewrite app_assoc. rewrite set_nth_app.
+  replace (List.length (rev (cs_rcode st) ++ f1) + 1)%nat with (List.length ((rev (cs_rcode st) ++ f1) ++ [(v / 256)%N]))
+    by (rewrite (app_length _ [_]); reflexivity).
+  replace ((rev (cs_rcode st) ++ f1) ++ (v / 256)%N :: b :: f2)
+    with (((rev (cs_rcode st) ++ f1) ++ [(v / 256)%N]) ++ b :: f2) by (rewrite <- !app_assoc; reflexivity).
+  rewrite set_nth_app.
+  unfold ext. cbn [cs_rcode cs_clen cs_rpool cs_plen].
+  repeat split; try assumption.
+  - rewrite <- (rev_involutive (cs_rcode st)) at 2. rewrite <- rev_app_distr. f_equal. unfold b16.
+    rewrite <- !app_assoc. reflexivity.
+  - rewrite A2. unfold b16. rewrite !app_length. cbn [List.length]. rewrite ?app_length. cbn [List.length]. lia.
+Qed.
+
+Lemma cbind_ok : forall X Y (r : cres X) (k : X -> cres Y) y, cbind r k = COk y -> exists x, r = COk x /\ k x = COk y.
+Proof. intros X Y [x| |] k y H; try discriminate. exists x. split; [reflexivity|exact H]. Qed.
+
+Ltac cinv H :=
+  match type of H with
+  | cbind _ _ = COk _ => let x := fresh "st" in let H1 := fresh "Hc" in
+                         apply cbind_ok in H; destruct H as [x [H1 H]]
+  end.
+
+Lemma b16_len : forall n, List.length (b16 n) = 2%nat.
+Proof. reflexivity. Qed.
+
+Section CompExt.
+  Variable ops : numops.
+  Variable orc : oracles.
+  Variable fe : fenv.
+  Notation compile := (compile ops orc fe).
+
+  Definition ext_prop (a : aexpr) : Prop :=
+    forall st st', wf st -> compile a st = COk st' -> exists f p, ext st st' f p.
+
+  Lemma comp_list_ext : forall es, Forall ext_prop es -> forall st st', wf st ->
+    comp_list ops orc fe es st = COk st' -> exists f p, ext st st' f p.
+  Proof.
+    induction 1 as [|x r Hx Hr IH]; intros st st' W H; cbn [comp_list] in H.
+    - inversion H; subst. exists [], []. apply ext_refl.
+    - cinv H. destruct (Hx _ _ W Hc) as [f1 [p1 E1]].
+      destruct (IH _ _ (ext_wf _ _ _ _ W E1) H) as [f2 [p2 E2]].
+      exists (f1 ++ f2), (p1 ++ p2). eapply ext_trans; eassumption.
+  Qed.
+
+  Lemma comp_kvs_ext : forall kvs, Forall (fun kv => ext_prop (fst kv) /\ ext_prop (snd kv)) kvs ->
+    forall st st', wf st -> comp_kvs ops orc fe kvs st = COk st' -> exists f p, ext st st' f p.
+  Proof.
+    induction 1 as [|[k v] r [Hk Hv] Hr IH]; intros st st' W H; cbn [comp_kvs] in H.
+    - inversion H; subst. exists [], []. apply ext_refl.
+    - cinv H. cinv H. cbn [fst snd] in *.
+      destruct (Hk _ _ W Hc) as [f1 [p1 E1]]. pose proof (ext_wf _ _ _ _ W E1) as W1.
+      destruct (Hv _ _ W1 Hc0) as [f2 [p2 E2]]. pose proof (ext_wf _ _ _ _ W1 E2) as W2.
+      destruct (IH _ _ W2 H) as [f3 [p3 E3]].
+      exists ((f1 ++ f2) ++ f3), ((p1 ++ p2) ++ p3). eapply ext_trans; [eapply ext_trans|]; eassumption.
+  Qed.
+
+  Lemma comp_fields_ext : forall fs, Forall (fun f => ext_prop (snd f)) fs ->
+    forall st st', wf st -> comp_fields ops orc fe fs st = COk st' -> exists f p, ext st st' f p.
+  Proof.
+    induction 1 as [|[n v] r Hv Hr IH]; intros st st' W H; cbn [comp_fields] in H.
+    - inversion H; subst. exists [], []. apply ext_refl.
+    - cinv H. cbn [snd] in *. destruct (Hv _ _ W Hc) as [f1 [p1 E1]].
+      destruct (IH _ _ (ext_wf _ _ _ _ W E1) H) as [f2 [p2 E2]].
+      exists (f1 ++ f2), (p1 ++ p2). eapply ext_trans; eassumption.
+  Qed.
+
+  Lemma wf_empty : forall st, wf st -> wf (cs_empty (cs_rpool st) (cs_plen st)).
+  Proof. intros st [W1 W2]. split; [reflexivity|exact W2]. Qed.
+
+  Lemma const_instr_ext : forall o c st st', emit_const c (emit_op o st) = COk st' ->
+    ext st st' (op_byte o :: b16 (cs_plen st)) [c] /\ (cs_plen st <= 65535)%N.
+  Proof.
+    intros o c st st' H. apply emit_const_ext in H. destruct H as [E Hle]. split; [|exact Hle].
+    apply (ext_trans _ _ _ [_] [] _ _ (ext_emit_op o st) E).
+  Qed.
+
+  (* one deferred argument: its body is compiled apart, on the shared pool *)
+  Lemma comp_thunk_inv : forall x st sub st'' rt,
+    wf st -> ext_prop x ->
+    compile x (cs_empty (cs_rpool st) (cs_plen st)) = COk sub ->
+    emit_const (CThunk (rev (cs_rcode (emit_op OP_RETURN sub))) rt)
+      (emit_op OP_CONST (mkCS (cs_rcode st) (cs_clen st) (cs_rpool sub) (cs_plen sub))) = COk st'' ->
+    exists fx px, ext (cs_empty (cs_rpool st) (cs_plen st)) sub fx px /\
+      ext st st'' (op_byte OP_CONST :: b16 (cs_plen sub)) (px ++ [CThunk (fx ++ [op_byte OP_RETURN]) rt]).
+  Proof.
+    intros x st sub st'' rt W Hx Hs He.
+    destruct (Hx _ _ (wf_empty _ W) Hs) as [fx [px Ex]]. exists fx, px. split; [exact Ex|].
+    apply const_instr_ext in He. destruct He as [E0 _]. cbn [cs_plen] in E0.
+    assert (Hb : rev (cs_rcode (emit_op OP_RETURN sub)) = fx ++ [op_byte OP_RETURN]).
+    { change (cs_rcode (emit_op OP_RETURN sub)) with (op_byte OP_RETURN :: cs_rcode sub).
+      destruct Ex as [B1 _]. cbn [cs_empty cs_rcode] in B1. rewrite B1, app_nil_r. cbn [rev].
+      rewrite rev_involutive. reflexivity. }
+    rewrite Hb in E0.
+    assert (E1 : ext st (mkCS (cs_rcode st) (cs_clen st) (cs_rpool sub) (cs_plen sub)) [] px).
+    { destruct Ex as [_ [_ [B3 B4]]]. cbn [cs_empty cs_rpool cs_plen] in B3, B4.
+      unfold ext. cbn [cs_rcode cs_clen cs_rpool cs_plen rev List.length app].
+      repeat split; try assumption. lia. }
+    exact (ext_trans _ _ _ _ _ _ _ E1 E0).
+  Qed.
+
+  Lemma comp_args_ext : forall sg args, Forall ext_prop args -> forall i st st', wf st ->
+    comp_args ops orc fe sg args i st = COk st' -> exists f p, ext st st' f p.
+  Proof.
+    induction 1 as [|x r Hx Hr IH]; intros i st st' W H; cbn [comp_args] in H.
+    - inversion H; subst. exists [], []. apply ext_refl.
+    - destruct (s_lazy sg).
+      + cinv H. cinv H.
+        destruct (comp_thunk_inv _ _ _ _ _ W Hx Hc Hc0) as [fx [px [_ E1]]].
+        destruct (IH _ _ _ (ext_wf _ _ _ _ W E1) H) as [f2 [p2 E2]].
+        eexists _, _. eapply ext_trans; eassumption.
+      + cinv H. destruct (Hx _ _ W Hc) as [f1 [p1 E1]].
+        destruct (IH _ _ _ (ext_wf _ _ _ _ W E1) H) as [f2 [p2 E2]].
+        eexists _, _. eapply ext_trans; eassumption.
+  Qed.
+
+  Definition branch_ext (br : aexpr + bool) : Prop := match br with inl e => ext_prop e | inr _ => True end.
+
+  Lemma comp_branch_ext : forall br, branch_ext br -> forall st st', wf st ->
+    comp_branch ops orc fe br st = COk st' -> exists f p, ext st st' f p.
+  Proof.
+    intros [e|b] Hb st st' W H; cbn [comp_branch] in H.
+    - exact (Hb _ _ W H).
+    - apply const_instr_ext in H. destruct H as [E _]. eexists _, _. exact E.
+  Qed.
+
+  Lemma comp_cond_inv : forall c t e st st', wf st -> ext_prop c -> branch_ext t -> branch_ext e ->
+    comp_cond ops orc fe c t e st = COk st' ->
+    exists st1 st3 st4 st6 st7 fc pc ft pt fe' pe,
+      compile c st = COk st1 /\ ext st st1 fc pc /\
+      ext st st3 (fc ++ op_byte OP_IF_TRUE :: b16 0) pc /\
+      comp_branch ops orc fe t st3 = COk st4 /\ ext st3 st4 ft pt /\
+      ext st st6 (fc ++ op_byte OP_IF_TRUE :: b16 0 ++ ft ++ op_byte OP_JUMP :: b16 0) (pc ++ pt) /\
+      comp_branch ops orc fe e st6 = COk st7 /\ ext st6 st7 fe' pe /\
+      ext st st' (fc ++ op_byte OP_IF_TRUE :: b16 (cs_clen st6) ++ ft ++ op_byte OP_JUMP :: b16 (cs_clen st7) ++ fe')
+                 (pc ++ pt ++ pe).
+  Proof.
+    intros c t e st st' W Hc' Ht He H. unfold comp_cond in H.
+    cinv H. rename st0 into st1. destruct (Hc' _ _ W Hc) as [fc [pc E1]].
+    cinv H. rename st0 into st3. apply emit16_ext in Hc0. destruct Hc0 as [E3 _].
+    assert (E03 : ext st st3 (fc ++ op_byte OP_IF_TRUE :: b16 0) pc).
+    { pose proof (ext_trans _ _ _ _ _ _ _ E1 (ext_trans _ _ _ _ _ _ _ (ext_emit_op OP_IF_TRUE st1) E3)) as E.
+      rewrite app_nil_r in E. exact E. }
+    cinv H. rename st0 into st4.
+    destruct (comp_branch_ext _ Ht _ _ (ext_wf _ _ _ _ W E03) Hc0) as [ft [pt E4]].
+    cinv H. rename st0 into st6. apply emit16_ext in Hc1. destruct Hc1 as [E6 _].
+    assert (E06 : ext st st6 (fc ++ op_byte OP_IF_TRUE :: b16 0 ++ ft ++ op_byte OP_JUMP :: b16 0) (pc ++ pt)).
+    { pose proof (ext_trans _ _ _ _ _ _ _ E03 (ext_trans _ _ _ _ _ _ _ E4
+                   (ext_trans _ _ _ _ _ _ _ (ext_emit_op OP_JUMP st4) E6))) as E.
+      rewrite !app_nil_r in E. rewrite <- !app_assoc in E. exact E. }
+    cinv H. rename st0 into st7.
+    destruct (comp_branch_ext _ He _ _ (ext_wf _ _ _ _ W E06) Hc1) as [fe' [pe E7]].
+    cinv H. rename st0 into st8.
+    pose proof (ext_trans _ _ _ _ _ _ _ E06 E7) as E07.
+    exists st1, st3, st4, st6, st7, fc, pc, ft, pt, fe', pe.
+    repeat (split; [assumption|]).
+    (* the two patches *)
+    assert (Hoff1 : cs_clen (emit_op OP_IF_TRUE st1) = (cs_clen st + N.of_nat (List.length (fc ++ [op_byte OP_IF_TRUE])))%N).
+    { destruct E1 as [_ [A2 _]]. cbn. rewrite A2, app_length. cbn. lia. }
+    assert (E07' : ext st st7 ((fc ++ [op_byte OP_IF_TRUE]) ++ (0 / 256)%N :: (0 mod 256)%N ::
+                                 (ft ++ op_byte OP_JUMP :: b16 0 ++ fe')) ((pc ++ pt) ++ pe)).
+    { replace ((fc ++ [op_byte OP_IF_TRUE]) ++ (0 / 256)%N :: (0 mod 256)%N :: (ft ++ op_byte OP_JUMP :: b16 0 ++ fe'))
+        with ((fc ++ op_byte OP_IF_TRUE :: b16 0 ++ ft ++ op_byte OP_JUMP :: b16 0) ++ fe'); [exact E07|].
+      unfold b16. rewrite <- !app_assoc. cbn. rewrite <- !app_assoc. reflexivity. }
+    destruct (patch16_ext _ _ _ _ _ _ _ _ _ _ W E07' Hoff1 Hc2) as [E8 _].
+    assert (Hoff2 : cs_clen (emit_op OP_JUMP st4) =
+                    (cs_clen st + N.of_nat (List.length (fc ++ op_byte OP_IF_TRUE :: b16 (cs_clen st6) ++ ft ++ [op_byte OP_JUMP])))%N).
+    { destruct E03 as [_ [A2 _]]. destruct E4 as [_ [B2 _]]. cbn. rewrite B2, A2.
+      rewrite !app_length. cbn. rewrite !app_length. cbn. lia. }
+    assert (E8' : ext st st8 ((fc ++ op_byte OP_IF_TRUE :: b16 (cs_clen st6) ++ ft ++ [op_byte OP_JUMP]) ++
+                               (0 / 256)%N :: (0 mod 256)%N :: fe') ((pc ++ pt) ++ pe)).
+    { replace ((fc ++ op_byte OP_IF_TRUE :: b16 (cs_clen st6) ++ ft ++ [op_byte OP_JUMP]) ++ (0 / 256)%N :: (0 mod 256)%N :: fe')
+        with ((fc ++ [op_byte OP_IF_TRUE]) ++ b16 (cs_clen st6) ++ ft ++ op_byte OP_JUMP :: b16 0 ++ fe'); [exact E8|].
+      unfold b16. rewrite <- !app_assoc. cbn. rewrite <- !app_assoc. reflexivity. }
+    destruct (patch16_ext _ _ _ _ _ _ _ _ _ _ W E8' Hoff2 H) as [E9 _].
+    replace (fc ++ op_byte OP_IF_TRUE :: b16 (cs_clen st6) ++ ft ++ op_byte OP_JUMP :: b16 (cs_clen st7) ++ fe')
+      with ((fc ++ op_byte OP_IF_TRUE :: b16 (cs_clen st6) ++ ft ++ [op_byte OP_JUMP]) ++ b16 (cs_clen st7) ++ fe').
+    2:{ unfold b16. rewrite <- !app_assoc. cbn. rewrite <- !app_assoc. reflexivity. }
+    replace (pc ++ pt ++ pe) with ((pc ++ pt) ++ pe) by (rewrite app_assoc; reflexivity).
+    exact E9.
+  Qed.
+End CompExt.
+
+Section CompExt2.
+  Variable ops : numops.
+  Variable orc : oracles.
+  Variable fe : fenv.
+  Notation compile := (compile ops orc fe).
+
+  Ltac ext_chain :=
+    eexists _, _;
+    repeat first [ eassumption | apply ext_emit_op | (eapply ext_trans; [eassumption|]) | (eapply ext_trans; [apply ext_emit_op|]) ].
+
+  Lemma compile_ext : forall a, ext_prop ops orc fe a.
+  Proof.
+    induction a as [v|t n|t|b|t es IHes|t kvs IHkvs|t fs IHfs|c n|col k i fty callee args IHf IHargs|c vt v i IHv IHi|c ot idx o n IHo]
+      using aexpr_ind'; intros st st' W H.
+    - cbn [VM.compile] in H. apply const_instr_ext in H. destruct H as [E _]. eexists _, _. exact E.
+    - cbn [VM.compile] in H. apply const_instr_ext in H. destruct H as [E _]. eexists _, _. exact E.
+    - cbn [VM.compile] in H. apply const_instr_ext in H. destruct H as [E _]. eexists _, _. exact E.
+    - cbn [VM.compile] in H. apply const_instr_ext in H. destruct H as [E _]. eexists _, _. exact E.
+    - rewrite compile_list_eq in H. cinv H. cinv H.
+      destruct (comp_list_ext ops orc fe _ IHes _ _ W Hc) as [f1 [p1 E1]].
+      apply const_instr_ext in Hc0. destruct Hc0 as [E2 _]. apply emit16_ext in H. destruct H as [E3 _].
+      ext_chain.
+    - rewrite compile_map_eq in H. cinv H. cinv H.
+      destruct (comp_kvs_ext ops orc fe _ IHkvs _ _ W Hc) as [f1 [p1 E1]].
+      apply const_instr_ext in Hc0. destruct Hc0 as [E2 _]. apply emit16_ext in H. destruct H as [E3 _].
+      ext_chain.
+    - rewrite compile_obj_eq in H. cinv H.
+      destruct (comp_fields_ext ops orc fe _ IHfs _ _ W Hc) as [f1 [p1 E1]].
+      apply const_instr_ext in H. destruct H as [E2 _].
+      ext_chain.
+    - cbn [VM.compile] in H. apply const_instr_ext in H. destruct H as [E _]. eexists _, _. exact E.
+    - rewrite compile_call_eq in H. destruct (String.eqb k "").
+      + cinv H. cinv H. destruct (IHf _ _ W Hc) as [f1 [p1 E1]].
+        destruct (comp_list_ext ops orc fe _ IHargs _ _ (ext_wf _ _ _ _ W E1) Hc0) as [f2 [p2 E2]].
+        apply emit8_ext in H. destruct H as [E3 _]. ext_chain.
+      + destruct (lookup_fn fe k i) as [sg|]; [|discriminate].
+        destruct (intrinsic_cbn sg) as [b|].
+        * assert (Hcond : forall c t e, ext_prop ops orc fe c -> branch_ext ops orc fe t -> branch_ext ops orc fe e ->
+                    comp_cond ops orc fe c t e st = COk st' -> exists f p, ext st st' f p).
+          { intros c t e Hc' Ht He Hcc.
+            destruct (comp_cond_inv ops orc fe c t e st st' W Hc' Ht He Hcc)
+              as [st1 [st3 [st4 [st6 [st7 [fc [pc [ft [pt [fe' [pe [_ [_ [_ [_ [_ [_ [_ [_ E]]]]]]]]]]]]]]]]]]].
+            eexists _, _. exact E. }
+          destruct b; try discriminate.
+          -- destruct args as [|c [|t [|e [|? ?]]]]; try discriminate.
+             inversion IHargs as [|? ? Pc H1]; subst. inversion H1 as [|? ? Pt H2]; subst. inversion H2 as [|? ? Pe H3]; subst.
+             apply (Hcond c (inl t) (inl e)); assumption.
+          -- destruct args as [|x [|y [|? ?]]]; try discriminate.
+             inversion IHargs as [|? ? Px H1]; subst. inversion H1 as [|? ? Py H2]; subst.
+             apply (Hcond x (inl y) (inr false)); try assumption. exact I.
+          -- destruct args as [|x [|? ?]]; try discriminate.
+             inversion IHargs as [|? ? Px H1]; subst. cbv beta iota in H. cinv H. inversion H; subst.
+             destruct (Px _ _ W Hc) as [f1 [p1 E1]]. ext_chain.
+          -- destruct args as [|x [|y [|? ?]]]; try discriminate.
+             inversion IHargs as [|? ? Px H1]; subst. inversion H1 as [|? ? Py H2]; subst.
+             apply (Hcond x (inr true) (inl y)); try assumption. exact I.
+        * cinv H. destruct (comp_args_ext ops orc fe sg _ IHargs _ _ _ W Hc) as [f1 [p1 E1]].
+          destruct (intrinsic_cbv sg) as [o|].
+          -- inversion H; subst. ext_chain.
+          -- cbv zeta in H. cinv H. apply const_instr_ext in Hc0. destruct Hc0 as [E2 _].
+             apply emit8_ext in H. destruct H as [E3 _]. ext_chain.
+    - rewrite compile_sub_eq in H. cinv H. cinv H.
+      destruct (IHv _ _ W Hc) as [f1 [p1 E1]].
+      destruct (IHi _ _ (ext_wf _ _ _ _ W E1) Hc0) as [f2 [p2 E2]].
+      destruct (ty_is_list vt); [|destruct (ty_is_map vt); [|discriminate]]; inversion H; subst; ext_chain.
+    - rewrite compile_member_eq in H. cinv H. cinv H.
+      destruct (IHo _ _ W Hc) as [f1 [p1 E1]].
+      apply emit16_ext in Hc0. destruct Hc0 as [E2 _]. apply emit_const_ext in H. destruct H as [E3 _].
+      ext_chain.
+  Qed.
+End CompExt2.
